@@ -30,7 +30,7 @@ impl ParamHandler {
         let raw_params = DVector::zeros((count - 1) * 6);
         assert_eq!(count, initial.len());
 
-        let params = initial
+        let params: Vec<RcParams3> = initial
             .iter()
             .zip(mean_points.iter())
             .map(|(t, p)| RcParams3::from_initial(t, p))
@@ -42,6 +42,17 @@ impl ParamHandler {
             raw_params,
             count,
         };
+
+        // The raw parameter vector starts out describing the initial isometries (their rotation is
+        // held in the parameters of each entity), otherwise the first compute would reset every
+        // moving entity to an un-rotated pose
+        for i in 0..count {
+            if i != static_i {
+                let start = item.p_index(i) * 6;
+                let x = *item.params[i].x();
+                item.raw_params.fixed_rows_mut::<6>(start).copy_from(&x);
+            }
+        }
         item.compute();
         item
     }
